@@ -37,6 +37,7 @@ PROPS["C14"] = {
             "pkg": "internal/elligator", "configs": ALL4Q,
             "tests": {
                 "TestC14Map": T(6000, 200000, shards={"quick": 4, "thorough": 16}),
+                "TestC14ParMap": T(300, 10000),
                 "TestC14SetEdwardsFromXY": T(3000, 60000),
                 "TestC14MapSpecial": LIST(),
             },
